@@ -308,6 +308,21 @@ func init() {
 				InitialGlobal: map[string]string{"dynamic-scaling": []string{"false", "false", "true"}[r.IntN(3)]}})
 			return rc
 		}})
+	// certificates replaced through the socket (set ssl cert / commit ssl cert) with refused commands
+	register(&Profile{Name: "dyn-cert-faults", Prop: "C02", Weight: 1,
+		Oracles: OracleSet{Property: "C02", EffectiveStep: true, EffectiveAtSync: true},
+		Build: func(seed uint64, tier string) *RunConfig {
+			r := cfgRng(seed)
+			mn, mx := tierOps(tier, 6, 18)
+			ctl := sampleCtl(r)
+			rc := &RunConfig{Property: "C02", Profile: "dyn-cert-faults", Seed: seed, Ctl: ctl, MapOrder: r.IntN(2) == 0, Lagfree: r.IntN(2) == 0, MidSched: r.IntN(2) == 0}
+			rc.Faults = map[string]int{"sock.nonok_reply": pickInt(r, 150, 300, 500)}
+			rc.MaxFaults = 1 + r.IntN(4)
+			w := map[string]int{"secret_rotate": 30, "ep_scale": 4, "renotify": 2, "advance": 5}
+			rc.World, rc.Ops = GenerateRun(seed, GenOptions{Sparse: r.IntN(2) == 0, IngressKeys: []string{"balance-algorithm", "ssl-redirect"}, MinOps: mn, MaxOps: mx, QuiesceEvery: pickInt(r, 3, 6),
+				KeysPerRun: 2, W: w, NoForeignClass: true})
+			return rc
+		}})
 	register(&Profile{Name: "dyn-bluegreen", Prop: "C02", Weight: 1,
 		Oracles: OracleSet{Property: "C02", EffectiveStep: true, EffectiveAtSync: true},
 		Build: func(seed uint64, tier string) *RunConfig {
